@@ -67,7 +67,7 @@ def tasks(tier):
     # its obligations are re-checked here (dep.*) so that a change to the
     # shared code generation that breaks this property fails this check too
     return ['symbols', 'set_kernel', 'closure', 'wiring', 'wrapper', 'objects',
-            'compiler', 'canary',
+            'compiler', 'nbrctx', 'canary',
             'dep:skeleton',
             'dep:range', 'dep:determinism', 'dep:group_calls', 'dep:carry',
             'dep:bounded', 'dep:forward',
@@ -276,6 +276,8 @@ def run_task(task, ctx):
         return task_objects(ctx, repo)
     if task == 'compiler':
         return task_compiler(ctx, repo)
+    if task == 'nbrctx':
+        return task_nbrctx(ctx, repo)
     if task == 'canary':
         x = z3.Real('cx')
         ctx.canary('canary.must_fail', Obligation('c', [], WF(x, x, x, x, x)
@@ -521,8 +523,10 @@ def task_wiring(ctx, repo):
     fn = m.methods(cls)['_get_code']
     ctx.function(m, fn, cls + '._get_code')
     try:
+        code = {}
         for kind, w in want.items():
             got = run(kind, 'KOBJ')
+            code[kind] = got
             obs.append(Obligation('wiring.%s' % kind, [], z3.BoolVal(
                 got == w), W, extra=dict(emitted=str(got)[:300],
                                          documented=w[:300])))
@@ -549,6 +553,25 @@ def task_wiring(ctx, repo):
         return
     ctx.prove('wiring.methods_are_called_with_their_own_arguments', obs,
               replay=replay_wiring)
+    # From the property, not from the code: an equation is ONE object in
+    # Python -- what py_initialize stores on self is what the other methods
+    # read.  The generated code calls py_initialize on the Python object
+    # (self.all_equations[...]) and every other method on a compiled copy
+    # built once from the Python object's __dict__: the two share no state.
+    import re as _re
+    recv_py = set(_re.findall(r'(self\.[\w\[\]"\.]+?)\.py_initialize\(',
+                              got if isinstance(got, str) else ''))
+    recv_c = set()
+    for kind, txt in code.items():
+        recv_c |= set(_re.findall(r'(self\.\w+)\.%s\(' % kind,
+                                  txt if isinstance(txt, str) else ''))
+    same = bool(recv_py) and recv_py == recv_c
+    ctx.prove('wiring.python_hooks_and_compiled_methods_share_one_object', [
+        Obligation('wiring.py_initialize_receiver_is_the_compiled_object', [],
+                   z3.BoolVal(same), W, extra=dict(
+                       py_initialize_called_on=sorted(recv_py),
+                       other_methods_called_on=sorted(recv_c)))],
+        replay=_object_replay('C'))
 
 
 # ------------------------------------------------------ array wrappers
@@ -739,11 +762,121 @@ def task_objects(ctx, repo):
         ctx.outside('objects', str(e))
         return
     ctx.prove('objects.one_compiled_object_per_equation_instance', obs)
+    # what the wrapper CLASS is generated from.  The C types of the instance
+    # attributes are inferred from the object handed to code_gen.parse, and
+    # every instance is then copied into a wrapper object of that class:
+    # the property ("compute what the Python source says", instance
+    # attributes included) needs every instance of a class to take part in
+    # the inference, and two different classes that merely share a __name__
+    # to get a wrapper each.
+    by_name = {}
+    for e_ in eqs:
+        by_name.setdefault(e_.attrs['name'], []).append(e_)
+    seen = [id(p_) for p_ in parsed]
+    ok_a = all(all(id(e_) in seen for e_ in lst) for lst in by_name.values()
+               if len(lst) > 1)
+    ctx.prove('objects.wrapper_types_admit_every_instance', [Obligation(
+        'objects.every_instance_reaches_the_type_inference', [],
+        z3.BoolVal(bool(ok_a)), W, extra=dict(
+            parsed=[p_.name for p_ in parsed],
+            instances={k: [e_.name for e_ in v] for k, v in
+                       by_name.items()}))], replay=_object_replay('A'))
+    try:
+        del parsed[:]
+        two = [eqn(0, 'ContinuityEquation'), eqn(1, 'ContinuityEquation')]
+        # (eqn gives every object its own class object: same name, two
+        # classes)
+        obj = SymObject(cls, dict(equations=two, pre_comp={}), 'self')
+        obj.module = m.name
+        ex = Executor(repo, m, qualname=cls + '.get_equation_wrappers',
+                      merge=False,
+                      externals={
+                          'camel_to_underscore': camel,
+                          'defaultdict': lambda e, s_, a, k, n: _ZeroDict(),
+                          'get_predefined_types': lambda e, s_, a, k, n: {},
+                          'CythonGenerator': lambda e, s_, a, k, n: gen})
+        outs = ex.exec_function(fw, dict(self=obj, known_types={}))
+        classes_parsed = set(id(p_.attrs['__class__']) for p_ in parsed)
+        ok_b = len(outs) == 1 and classes_parsed == set(
+            id(e_.attrs['__class__']) for e_ in two)
+    except VCError as e:
+        ctx.outside('objects.same_name', str(e))
+        return
+    ctx.prove('objects.one_wrapper_per_class_not_per_class_name', [
+        Obligation('objects.two_classes_with_one_name', [],
+                   z3.BoolVal(bool(ok_b)), W, extra=dict(
+                       wrappers_generated=len(parsed)))],
+        replay=_object_replay('B'))
+
+
+def _object_replay(which):
+    def rp(model, ob):
+        import os
+        import subprocess
+        from pyvc.repo import REPO_ROOT
+        path = os.path.join(os.path.dirname(os.path.abspath(__file__)),
+                            'c02_object_replay.py')
+        try:
+            env = dict(os.environ)
+            env.pop('PYTHONPATH', None)
+            p_ = subprocess.run(['/venv/bin/python', path, REPO_ROOT, which],
+                                capture_output=True, text=True, timeout=900,
+                                cwd='/tmp', env=env)
+        except Exception as e:
+            return dict(reproduced=False, note=str(e)[-300:])
+        lines = [l for l in p_.stdout.split('\n') if l.startswith(which)]
+        return dict(reproduced=p_.returncode == 1 and bool(lines),
+                    how='evaluator compiled from the working tree, compared '
+                        'with the Python methods',
+                    observed=(lines or [p_.stderr[-300:]])[0][:300])
+    return rp
 
 
 class _ZeroDict(dict):
     def __missing__(self, k):
         return 0
+
+
+# ------------------------------------------------- neighbour-search context
+def task_nbrctx(ctx, repo):
+    """'Over the same neighbours': the generated loop over a (destination,
+    source) pair asks the neighbour search for that pair.  The caller (the
+    template text of acceleration_eval_cython.mako) is checked against the
+    callee's signature NNPSBase.set_context(self, src_index, dst_index) read
+    from the extracted nnps_base.pyx: the source index goes where the callee
+    expects the source, the destination index where it expects the
+    destination; the two index variables are bound from src.index /
+    dst.index, and the query is made for the destination particle d_idx."""
+    import os
+    import re
+    from pyvc.repo import REPO_ROOT
+    tpl = os.path.join(REPO_ROOT, 'pysph/sph/acceleration_eval_cython.mako')
+    text = open(tpl).read()
+    mb = repo.cython_module('pysph/base/nnps_base.pyx')
+    fn = mb.methods('NNPSBase')['set_context']
+    params = [a.arg for a in fn.args.args][1:]
+    calls = re.findall(r'nnps\.set_context\(([^)]*)\)', text)
+    role = {'src_array_index': 'src', 'dst_array_index': 'dst'}
+    ok = len(calls) >= 1 and len(params) == 2
+    why = 'calls %r, callee parameters %r' % (calls, params)
+    for c in calls:
+        args = [a.strip() for a in c.split(',')]
+        if len(args) != 2 or any(a not in role for a in args):
+            ok = False
+            continue
+        for a, p_ in zip(args, params):
+            if not p_.startswith(role[a]):
+                ok = False
+    binds = dict(re.findall(r'^(src_array_index|dst_array_index) = (\w+)\.'
+                            r'index\s*$', text, re.M))
+    ok = ok and binds == {'src_array_index': 'src', 'dst_array_index': 'dst'}
+    q = re.findall(r'nnps\.get_nearest_neighbors\((\w+)\s*,', text)
+    ok = ok and q == ['d_idx']
+    ctx.function(mb, fn, 'NNPSBase.set_context')
+    ctx.prove('nbrctx.loops_ask_for_the_neighbours_of_their_own_pair', [
+        Obligation('nbrctx.template_call_matches_callee_signature', [],
+                   z3.BoolVal(bool(ok)), tpl, extra=dict(
+                       why=why + '; bound %r; queried for %r' % (binds, q)))])
 
 
 # ------------------------------------------------------------- the compiler
